@@ -11,7 +11,8 @@ CONSTANTS Mode, Depth, Width, NodeKinds, AtomSet, SmallDepth, LeafSet, MemoSet
 
 SeqsUpTo(S, n) == UNION {[1..m -> S] : m \in 0..n}
 
-Atom(a) == CASE a = "int" -> IntAtom [] a = "str" -> StrAtom
+Atom(a) == CASE a = "int" -> IntAtom [] a = "str" -> StrAtom [] a = "flt" -> FltAtom
+             [] a = "arr0" -> ArrAtom(<<0>>, "f")
              [] a = "arr2" -> ArrAtom(<<2>>, "f") [] a = "arr3" -> ArrAtom(<<3>>, "f")
              [] a = "arr2i" -> ArrAtom(<<2>>, "i") [] a = "arr23" -> ArrAtom(<<2, 3>>, "f")
 Atoms == {Atom(a) : a \in AtomSet}
@@ -59,6 +60,7 @@ QK(i, nm) == LabelOf(i, SName("T")) \o nm
 Pair2 == SNode("tuple", <<Star, Star>>, << >>)
 MemoCatalogue ==
   [empty |-> EmptyPMemo,
+   a0 |-> PMemo([a |-> 0], EmptyFn, EmptyFn),
    a2 |-> PMemo([a |-> 2], EmptyFn, EmptyFn),
    a3 |-> PMemo([a |-> 3], EmptyFn, EmptyFn),
    v2 |-> PMemo(EmptyFn, [v |-> [b |-> FALSE, s |-> <<2>>]], EmptyFn),
